@@ -24,7 +24,7 @@ def impl_generate(vendor, cls, address, size, dp, iu, sv, d):
     out = os.path.join(d, "mpi.hex")
     common.make_stale(out)
     try:
-        cmd_mpi.main(mpi="generate", output_file=out, vendor_name=vendor, class_name=cls, address=address, size=size,
+        common.call_main(cmd_mpi.main, d, mpi="generate", output_file=out, vendor_name=vendor, class_name=cls, address=address, size=size,
                      downgrade_prevention_enabled=dp, independent_updates=iu, signature_verification=sv)
         return {"ok": open(out).read()}
     except BaseException as e:  # noqa
@@ -43,7 +43,7 @@ def impl_merge(address, size, files, d):
             fh.write(t)
         paths.append(p)
     try:
-        cmd_mpi.main(mpi="merge", output_file=out, address=address, size=size, file=paths)
+        common.call_main(cmd_mpi.main, d, mpi="merge", output_file=out, address=address, size=size, file=paths)
         return {"ok": open(out).read()}
     except BaseException as e:  # noqa
         return common.impl_err(e)
@@ -206,6 +206,11 @@ def run(tier: str, seed: int) -> int:
                     continue  # no inputs: minaddr() of nothing; outside the domain
                 if impl != model:
                     res.mismatches.append({"op": "mpi.merge", "request": req, "impl": impl, "model": model})
+                inside = all(address <= a and a + sz <= address + size for a, sz in recs)
+                disjoint = all(a1 + s1 <= a2 or a2 + s2 <= a1 for x, (a1, s1) in enumerate(recs) for (a2, s2) in recs[x + 1:])
+                if inside and disjoint and "ok" in model and all(sz >= 48 for _, sz in recs):
+                    res.spec_failures.append({"request": req, "records": recs, "impl": impl,
+                                              "what": "merge refused records written by mpi generate that lie inside the area and do not overlap"})
     cli_cases(res, drv, tier)
     drv.close()
     return finish(res, st, RULE, NOTE)
